@@ -228,7 +228,10 @@ def build(entry, rs):
         else:
             def f(s):
                 e = CP_PLSR(n_components=min(2, min(fsh)), random_state=s).fit(Xr, y)
-                return [list(e.X_factors), list(e.Y_factors), e.predict(Xr)]
+                # the same scoring call twice on the fitted estimator, from the caller's own arrays: a repeat returns the same scores
+                t1 = e.transform(Xr, y)
+                t2 = e.transform(Xr, y)
+                return [list(e.X_factors), list(e.Y_factors), e.predict(Xr), [np.array(a_, copy=True) for a_ in t1], [np.array(a_, copy=True) for a_ in t2]]
         return f, dict(d, shape=[n] + fsh)
     if entry == "shared_rank_list":
         # one rank list owned by the caller, first used for a decomposition that has to clamp it internally, then for seeded generators
